@@ -45,11 +45,11 @@ ASSUMPTIONS = [
 
 UNIVERSE = [0, 1, 2, -1, 1.0, 2.5, 1.005, 1.0000000001, True, False, None, "1", "ab", "abc", "", [1, 2], [1.0, 2], [], {"x": 1}]
 SCALAR_U = [v for v in UNIVERSE if not isinstance(v, dict)]
-SP_KEYS = ["a", "b", "n", "l"]
-DOC_KEYS = ["a", "d", "s"]
+SP_KEYS = ["a", "b", "n", "l", "spec"]  # "spec": a key that merely starts like the "sp" namespace
+DOC_KEYS = ["a", "d", "s", "docs"]  # "docs": starts like the "doc" namespace
 TYPE_NAMES = ["int", "float", "bool", "str", "list", "null"]
 REGEXES = ["a", "^a", "b$", "a.c", "", "1", "[ab]c", "^$"]
-LEAF_KEYS = ["a", "b", "n.x", "n", "l", "doc.a", "doc.d.y", "doc.d", "doc.s", "sp.a", "sp.n.x", "zz", "doc.zz"]
+LEAF_KEYS = ["a", "b", "n.x", "n", "l", "doc.a", "doc.d.y", "doc.d", "doc.s", "sp.a", "sp.n.x", "zz", "doc.zz", "spec.x", "sp.spec.x", "spec", "doc.docs.y"]
 OPS = ["$eq", "$ne", "$gt", "$gte", "$lt", "$lte", "$in", "$nin", "$exists", "$regex", "$type", "$near"]
 
 # ---- generators -------------------------------------------------------------
@@ -70,7 +70,7 @@ def corpora(draw, max_jobs=6):
             if draw(st.integers(0, 3)) == 0:
                 continue
             v = draw(st.sampled_from(pools[k]))
-            if k == "n" and draw(st.integers(0, 4)) != 0:
+            if k in ("n", "spec") and draw(st.integers(0, 4)) != 0:
                 v = {"x": v} if not isinstance(v, dict) else {"x": 1, "y": v}
             sp[k] = v
         if draw(st.integers(0, 3)) != 0:
@@ -79,7 +79,7 @@ def corpora(draw, max_jobs=6):
                 if draw(st.integers(0, 2)) == 0:
                     continue
                 v = draw(st.sampled_from(pools["doc." + k]))
-                if k == "d" and draw(st.integers(0, 4)) != 0:
+                if k in ("d", "docs") and draw(st.integers(0, 4)) != 0:
                     v = {"y": v} if not isinstance(v, dict) else {"y": 2, "x": v}
                 doc[k] = v
         jobs.append({"sp": sp, "doc": doc})
